@@ -7,6 +7,7 @@ package main
 // legal move) - properties C05, C06, C07, C13.
 
 import (
+	"strings"
 	"bufio"
 	"encoding/json"
 	"flag"
@@ -450,7 +451,7 @@ func timeCtl(args []string) error {
 		0:  {"4k3/pppp1ppp/8/8/8/8/PPPP1PPP/4K3 w - - 0 1", "4k3/pppp1ppp/8/8/8/8/PPPP1PPP/4K3 b - - 0 1"},
 	}
 	s := search.NewSearch()
-	return readTagged([]string{*inF}, "GRID", func(js string) error {
+	return readTagged(strings.Split(*inF, ","), "GRID", func(js string) error {
 		var g struct {
 			Time, Inc, MovesToGo, Phase, Stm, Opp int
 		}
